@@ -103,6 +103,14 @@ def run(e: Engine, rep: Report):
              'established on the path (a line with a corrupted signature is '
              'otherwise accepted - six bytes are cut off whatever they are)')
     v9(e, rep)
+    rep.rule('V10', 'the fields of the v1 line are separated by exactly one '
+             'SP: wherever the module takes header text apart with '
+             'split / rsplit, the separator is given (a separator-less '
+             'split() takes any run of TAB, VT, FF, CR, LF or SP for one '
+             'separator and drops empty fields: corrupted separators are '
+             'accepted with a real-looking address, and a field-less line '
+             'yields [] whose [0] raises IndexError out of handle())')
+    v10(e, rep)
     rep.floor('V1', 4, 'recv_into sites')
 
 
@@ -1297,4 +1305,48 @@ def v9(e: Engine, rep: Report):
     if n == 0:
         rep.ok('V9', where, 'no fixed-offset cut of the line',
                reason='parse_pp_line does not slice the line at [6:...]',
+               nontrivial=False)
+
+
+def v10(e: Engine, rep: Report):
+    m = e.p.modules.get(MOD)
+    n = 0
+    for f in e.p.functions.values():
+        if f.module is not m:
+            continue
+        for c in walk_own(f.node):
+            if not (isinstance(c, ast.Call) and
+                    isinstance(c.func, ast.Attribute) and
+                    c.func.attr in ('split', 'rsplit')):
+                continue
+            if isinstance(c.func.value, ast.Constant) or (
+                    isinstance(c.func.value, ast.Name) and
+                    c.func.value.id in ('re', 'os', 'shlex')) or (
+                    isinstance(c.func.value, ast.Attribute) and
+                    c.func.value.attr == 'path'):
+                continue
+            n += 1
+            rep.evaluations += 1
+            rep.functions.add(f.qname)
+            sep = c.args[0] if c.args else next(
+                (k.value for k in c.keywords if k.arg == 'sep'), None)
+            bad = sep is None or (isinstance(sep, ast.Constant) and
+                                  sep.value is None)
+            rep.check(not bad, 'V10', f.qname,
+                      '`%s` names its separator'
+                      % ' '.join(ast.unparse(c).split())[:50],
+                      '`%s` splits header text on any run of white space '
+                      '(TAB, VT, FF, CR, LF as well as SP) and drops empty '
+                      'fields: a header whose separators are corrupted is '
+                      'accepted with the address in it instead of '
+                      'proceeding with the invalid source address, and a '
+                      'line without fields gives an empty list - the '
+                      'IndexError of its [0] is not an AssertionError and '
+                      'leaves handle()'
+                      % ' '.join(ast.unparse(c).split())[:50],
+                      loc=f.loc(c), reason='explicit separator argument')
+    rep.evaluations += 1
+    if n == 0:
+        rep.ok('V10', MOD, 'no split() in the module',
+               reason='the module does not take text apart with split',
                nontrivial=False)
